@@ -24,7 +24,7 @@ func (m *msgHookCounter) hit() *erpc.Status {
 	atomic.AddInt64(&m.n, 1)
 	return nil
 }
-func (m *msgHookCounter) PreReadHeader(erpc.PreCtx) error                { atomic.AddInt64(&m.n, 1); return nil }
+func (m *msgHookCounter) PreReadHeader(erpc.PreCtx) error               { atomic.AddInt64(&m.n, 1); return nil }
 func (m *msgHookCounter) PostReadCallHeader(erpc.ReadCtx) *erpc.Status  { return m.hit() }
 func (m *msgHookCounter) PreReadCallBody(erpc.ReadCtx) *erpc.Status     { return m.hit() }
 func (m *msgHookCounter) PostReadCallBody(erpc.ReadCtx) *erpc.Status    { return m.hit() }
@@ -39,7 +39,7 @@ func (m *msgHookCounter) count() int64                                  { return
 type c16Case struct {
 	Proto    string
 	First    string // goodauth | badauth | call | push | reply | authreply | badtype | malformed | truncated | nothing | callsfirst
-	Verdict  string // bycreds | reject-after-setid | panic
+	Verdict  string // bycreds | retry (receive a second time on bad credentials) | reject-after-setid | panic
 	Pipeline int    // CALL frames pipelined behind the first frame in the same write
 	Pushes   int
 	OneWrite bool
@@ -50,7 +50,7 @@ type c16Case struct {
 func genC16(t *rapid.T, protos []vt.NamedProto) c16Case {
 	c := c16Case{Proto: rapid.SampledFrom(protos).Draw(t, "proto").Name}
 	c.First = rapid.SampledFrom([]string{"goodauth", "goodauth", "goodauth", "badauth", "call", "push", "reply", "authreply", "badtype", "malformed", "truncated", "nothing", "callsfirst"}).Draw(t, "first")
-	c.Verdict = rapid.SampledFrom([]string{"bycreds", "bycreds", "bycreds", "reject-after-setid", "panic"}).Draw(t, "verdict")
+	c.Verdict = rapid.SampledFrom([]string{"bycreds", "bycreds", "bycreds", "retry", "retry", "reject-after-setid", "panic"}).Draw(t, "verdict")
 	c.Pipeline = rapid.IntRange(0, 3).Draw(t, "pipeline")
 	c.Pushes = rapid.IntRange(0, 2).Draw(t, "pushes")
 	c.OneWrite = rapid.Bool().Draw(t, "onewrite")
@@ -58,7 +58,9 @@ func genC16(t *rapid.T, protos []vt.NamedProto) c16Case {
 	return c
 }
 
-func (c c16Case) accepted() bool { return c.First == "goodauth" && c.Verdict == "bycreds" }
+func (c c16Case) accepted() bool {
+	return c.First == "goodauth" && (c.Verdict == "bycreds" || c.Verdict == "retry")
+}
 
 func runC16(c c16Case, protos []vt.NamedProto) []string {
 	vt.Init()
@@ -78,6 +80,13 @@ func runC16(c c16Case, protos []vt.NamedProto) []string {
 			return nil, erpc.NewStatus(erpc.CodeUnauthorized, "no", "rejected after SetID")
 		case "panic":
 			panic("checker exploded")
+		}
+		if info != "good-credentials" && c.Verdict == "retry" {
+			// a checker that asks for the credentials a second time: the plugin allows one
+			// exchange per connection and answers with its MultiRecvErr, which the checker passes on
+			if stat := recv(&info); !stat.OK() {
+				return nil, stat
+			}
 		}
 		if info != "good-credentials" {
 			return nil, erpc.NewStatus(erpc.CodeUnauthorized, erpc.CodeText(erpc.CodeUnauthorized), "bad credentials")
@@ -250,7 +259,7 @@ func runC16(c c16Case, protos []vt.NamedProto) []string {
 	return fails
 }
 
-const ruleC16 = "serving peer with auth.NewCheckerPlugin (verdict by credentials / reject after SetID / panic) and a counter on every per-message hook; a raw client's first frame is {good AUTH_CALL, bad AUTH_CALL, CALL, PUSH, REPLY, AUTH_REPLY, unknown type, over-limit garbage, half an auth frame then close, nothing then close, CALL before the auth frame} with 0-3 CALLs and 0-2 PUSHes pipelined behind it, in one write or several, under a generated read chunking; oracle: checker runs exactly once; without a successful exchange no handler and no per-message hook runs, the client gets at most one AUTH_REPLY then EOF, nothing is indexed (also not under the id the checker set); with a successful exchange the pipelined CALLs are answered exactly once; non-trivial = first frame is not a plain good AUTH_CALL or frames are pipelined; distinct by case"
+const ruleC16 = "serving peer with auth.NewCheckerPlugin (verdict by credentials / second receive attempt on bad credentials / reject after SetID / panic) and a counter on every per-message hook; a raw client's first frame is {good AUTH_CALL, bad AUTH_CALL, CALL, PUSH, REPLY, AUTH_REPLY, unknown type, over-limit garbage, half an auth frame then close, nothing then close, CALL before the auth frame} with 0-3 CALLs and 0-2 PUSHes pipelined behind it, in one write or several, under a generated read chunking; oracle: checker runs exactly once; without a successful exchange no handler and no per-message hook runs, the client gets at most one AUTH_REPLY then EOF, nothing is indexed (also not under the id the checker set); with a successful exchange the pipelined CALLs are answered exactly once; non-trivial = first frame is not a plain good AUTH_CALL or frames are pipelined; distinct by case"
 
 func TestC16Auth(t *testing.T) {
 	rec := vt.NewRec(t, "C16", "checker", ruleC16)
